@@ -124,18 +124,20 @@ pub unsafe extern "C" fn syscall(n: c_long, a1: c_long, a2: c_long, a3: c_long, 
 
 #[unsafe(no_mangle)]
 pub unsafe extern "C" fn epoll_wait(epfd: c_int, events: *mut libc::epoll_event, maxevents: c_int, timeout: c_int) -> c_int {
-    match with_world(|w| w.on_epoll_wait(epfd, events, maxevents, timeout)) {
-        Some(r) => r,
-        None => unsafe { ret_errno(sc!(libc::SYS_epoll_wait, epfd, events, maxevents, timeout)) as c_int },
+    let wp = crate::world::CUR.with(|c| c.get());
+    if !wp.is_null() {
+        return crate::world::epoll_wait_entry(wp, epfd, events, maxevents, timeout);
     }
+    unsafe { ret_errno(sc!(libc::SYS_epoll_wait, epfd, events, maxevents, timeout)) as c_int }
 }
 
 #[unsafe(no_mangle)]
 pub unsafe extern "C" fn epoll_pwait(epfd: c_int, events: *mut libc::epoll_event, maxevents: c_int, timeout: c_int, sigmask: *const libc::sigset_t) -> c_int {
-    match with_world(|w| w.on_epoll_wait(epfd, events, maxevents, timeout)) {
-        Some(r) => r,
-        None => unsafe { ret_errno(sc!(libc::SYS_epoll_pwait, epfd, events, maxevents, timeout, sigmask, 8)) as c_int },
+    let wp = crate::world::CUR.with(|c| c.get());
+    if !wp.is_null() {
+        return crate::world::epoll_wait_entry(wp, epfd, events, maxevents, timeout);
     }
+    unsafe { ret_errno(sc!(libc::SYS_epoll_pwait, epfd, events, maxevents, timeout, sigmask, 8)) as c_int }
 }
 
 #[unsafe(no_mangle)]
@@ -162,6 +164,9 @@ unsafe fn do_accept(fd: c_int, addr: *mut sockaddr, len: *mut socklen_t, flags: 
                 w.stats.accepts += 1;
                 w.sozu_fds.insert(nfd, 'a');
                 w.accepted_peer.insert(nfd, peer);
+                let pr = crate::world::PROC_ID.with(|p| p.get());
+                let now = w.now;
+                w.accept_log.push((pr, now));
                 if w.accepted_peer.len() > w.max_open_accepted { w.max_open_accepted = w.accepted_peer.len(); }
                 w.tr(0xAC, peer.port() as u64);
                 w.on_sozu_socket(nfd);
